@@ -2,7 +2,7 @@
 """Syntactic mutation sweep over one source file of pitt-rnel/pyrtma, judged by whole checks (`./check Cnn`).
 
     tools/mutate_check.py <worktree> <relative file> --checks C09[,C10...] [--only f1,f2] [--skip f1,f2]
-                          [--limit N] [--from N] [--lines l1,l2] [--out file.jsonl] [--timeout S] [--list]
+                          [--limit N] [--from N] [--lines l1,l2] [--nums n1,n2] [--out file.jsonl] [--timeout S] [--list] [--first-catch]
 
 The worktree is a scratch `git worktree` of /repo (never /repo itself).  For every mutant (comparison / boolean operator
 swaps, 0<->1 constants, deleted simple statements, negated conditions, swapped `continue`/`break`, +/- swaps) of the file
@@ -25,6 +25,7 @@ skip = set(arg("--skip").split(",")) if arg("--skip") else set()
 limit = int(arg("--limit", 10 ** 9))
 first = int(arg("--from", 1))        # resume: skip the mutants numbered below this (numbering unchanged)
 lines_only = set(int(x) for x in arg("--lines").split(",")) if arg("--lines") else None
+nums_only = set(int(x) for x in arg("--nums").split(",")) if arg("--nums") else None   # re-run single mutants by their number in the full enumeration (--list)
 timeout = int(arg("--timeout", 1500))
 out = open(arg("--out"), "a") if arg("--out") else sys.stdout
 assert os.path.realpath(wt) != "/repo"
@@ -176,7 +177,7 @@ try:
         except SyntaxError:
             continue
         n += 1
-        if n < first:
+        if n < first or (nums_only is not None and n not in nums_only):
             continue
         if "--list" in sys.argv:        # dry run: what would be applied (no check runs)
             print(json.dumps({"n": n, "kind": kind, "func": f, "line": getattr(node, "lineno", 0), "before": before,
@@ -184,7 +185,11 @@ try:
             continue
         open(path, "w").write(text)
         try:
-            res = {p: run_check(p) for p in checks}
+            res = {}
+            for p in checks:
+                res[p] = run_check(p)
+                if "--first-catch" in sys.argv and res[p]["rc"] == 1 and ("nofail" in res[p]):
+                    break                      # (the later checks are not run: the mutant is caught)
         finally:
             open(path, "w").write(src)
         rec = {"n": n, "kind": kind, "func": f, "line": getattr(node, "lineno", 0), "before": before, "after": after,
